@@ -1577,6 +1577,22 @@ def evalf(r, env, _memo=None):
     return poly(r.num) / d
 
 
+def _shared_opaque(a, b):
+    """ids of opaque generators (call atoms, items of call results, decoded bytes, ...) that occur in BOTH forms: for a witness they can
+    take any value, the same on both sides"""
+    known = {'def', 'sqrt', 'atan', 'atan2', 'asin', 'acos', 'log', 'abs', 'exp', 'pow', 'int', 'floordiv', 'mod', 'lt', 'le', 'gt', 'ge', 'eq', 'ne',
+             'and', 'or', 'not', 'truthy', 'ite'}
+
+    def collect(r):
+        out = set()
+        for k in r.atoms(deep=True):
+            at = TABLE.atoms[k]
+            if at.kind == 'fn' and at.name not in known and not at.name.startswith(('ext:', 'array', 'strop', 'fstring')):
+                out.add(k)
+        return out
+    return collect(a) & collect(b)
+
+
 def numeric_witness(a, b, ranges, trials=6, rel=1e-8):
     """sample points (deterministic) of the free symbols; returns (point, value a, value b) when at two or more sampled points the
     values differ by more than rel (relative) - far above the rounding noise of evaluating the forms in double precision - else None.
@@ -1587,6 +1603,7 @@ def numeric_witness(a, b, ranges, trials=6, rel=1e-8):
         return None
     found = None
     hits = 0
+    shared = sorted(_shared_opaque(a, b))
     for t in range(trials):
         env = {}
         for j, s in enumerate(syms):
@@ -1594,6 +1611,8 @@ def numeric_witness(a, b, ranges, trials=6, rel=1e-8):
             # low-discrepancy deterministic fractions
             frac = ((t + 1) * 0.6180339887498949 + (j + 1) * 0.7548776662466927) % 1.0
             env[s.id] = lo + (hi - lo) * frac
+        for j, k in enumerate(shared):
+            env[k] = 0.3 + 0.6 * (((t + 1) * 0.5545497 + (j + 1) * 0.3819660) % 1.0)
         try:
             va, vb = evalf(a, env), evalf(b, env)
         except (NotEvaluable, ZeroDivisionError, OverflowError, ValueError):
@@ -1611,12 +1630,15 @@ def numeric_agree(a, b, ranges, trials=5, rel=1e-7):
     ids = sorted(set(a.atoms(deep=True)) | set(b.atoms(deep=True)))
     syms = [TABLE.atoms[k] for k in ids if TABLE.atoms[k].kind == 'sym' and TABLE.atoms[k].name != 'pi']
     n = 0
+    shared = sorted(_shared_opaque(a, b))
     for t in range(trials):
         env = {}
         for j, s in enumerate(syms):
             lo, hi = ranges[s.name]
             frac = ((t + 1) * 0.6180339887498949 + (j + 1) * 0.7548776662466927) % 1.0
             env[s.id] = lo + (hi - lo) * frac
+        for j, k in enumerate(shared):
+            env[k] = 0.3 + 0.6 * (((t + 1) * 0.5545497 + (j + 1) * 0.3819660) % 1.0)
         try:
             va, vb = evalf(a, env), evalf(b, env)
         except (NotEvaluable, ZeroDivisionError, OverflowError, ValueError):
